@@ -234,4 +234,210 @@ theorem det_matchLoop (P : Node → Prop) (hP : ∀ b n, P (detach b n)) (oitems
     exact matchStep_det P _ _ _ _ _ (fun l => det_updateFrom P hP o l true) (det_matchLoop P hP rest _ _) d hd
 end
 
+/-! ### provenance of the objects in a merged set (`update_nss_from` = `finishSet ∘ matchLoop`) -/
+
+theorem mem_set {k k' : Key} {v n : Node} {l : Items} (h : (k, n) ∈ AList.set k' v l) : (k, n) = (k', v) ∨ (k, n) ∈ l := by
+  induction l with
+  | nil => simp [AList.set] at h; exact Or.inl (by simp [h])
+  | cons hd t ih =>
+    obtain ⟨k2, v2⟩ := hd
+    by_cases hk : k2 = k'
+    · simp [AList.set, hk] at h
+      rcases h with h | h
+      · exact Or.inl (by simp [h])
+      · exact Or.inr (List.mem_cons_of_mem _ h)
+    · simp [AList.set, hk] at h
+      rcases h with h | h
+      · exact Or.inr (by simp [h])
+      · rcases ih h with h' | h'
+        · exact Or.inl h'
+        · exact Or.inr (List.mem_cons_of_mem _ h')
+
+theorem mem_applyKeeps {k : Key} {n : Node} : ∀ (slots : List Slot) (l : Items),
+    (k, n) ∈ applyKeeps l slots → (k, n) ∈ l ∨ Slot.keep k n ∈ slots := by
+  intro slots
+  induction slots with
+  | nil => intro l h; exact Or.inl h
+  | cons s r ih =>
+    intro l h
+    cases s with
+    | keep k' v =>
+      simp only [applyKeeps] at h
+      rcases ih _ h with h1 | h1
+      · rcases mem_set h1 with h2 | h2
+        · cases h2; exact Or.inr (List.mem_cons_self ..)
+        · exact Or.inl h2
+      · exact Or.inr (List.mem_cons_of_mem _ h1)
+    | add o =>
+      simp only [applyKeeps] at h
+      rcases ih _ h with h1 | h1
+      · exact Or.inl h1
+      · exact Or.inr (List.mem_cons_of_mem _ h1)
+
+theorem mem_keepItems {k : Key} {n : Node} (rm : List Key) : ∀ (slots : List Slot),
+    (k, n) ∈ keepItems rm slots → Slot.keep k n ∈ slots := by
+  intro slots
+  induction slots with
+  | nil => intro h; cases h
+  | cons s r ih =>
+    intro h
+    cases s with
+    | keep k' v =>
+      simp only [keepItems] at h
+      split at h
+      · exact List.mem_cons_of_mem _ (ih h)
+      · rcases List.mem_cons.1 h with h1 | h1
+        · cases h1; exact List.mem_cons_self ..
+        · exact List.mem_cons_of_mem _ (ih h1)
+    | add o => simp only [keepItems] at h; exact List.mem_cons_of_mem _ (ih h)
+
+/-- every object in the result of loop 3 is a matched (kept) object or an adopted object of `other` -/
+theorem mem_resolve {k : Key} {n : Node} (puid : Uid) (lsh osh : SetHdr) (sib rm : List Key) :
+    ∀ (slots : List Slot) (cur : List Key), (k, n) ∈ (resolve puid lsh osh sib rm cur slots).1 →
+      Slot.keep k n ∈ slots ∨ ∃ o present, Slot.add o ∈ slots ∧ adopt puid lsh osh present o = .ok (k, n) := by
+  intro slots
+  induction slots with
+  | nil => intro cur h; simp [resolve] at h
+  | cons s r ih =>
+    intro cur h
+    cases s with
+    | keep k' v =>
+      simp only [resolve] at h
+      split at h
+      · rcases ih _ h with h1 | ⟨o, pr, h1, h2⟩
+        · exact Or.inl (List.mem_cons_of_mem _ h1)
+        · exact Or.inr ⟨o, pr, List.mem_cons_of_mem _ h1, h2⟩
+      · rcases List.mem_cons.1 h with h1 | h1
+        · cases h1; exact Or.inl (List.mem_cons_self ..)
+        · rcases ih _ h1 with h2 | ⟨o, pr, h2, h3⟩
+          · exact Or.inl (List.mem_cons_of_mem _ h2)
+          · exact Or.inr ⟨o, pr, List.mem_cons_of_mem _ h2, h3⟩
+    | add o =>
+      simp only [resolve] at h
+      split at h
+      · exact Or.inl (List.mem_cons_of_mem _ (mem_keepItems rm r h))
+      · rename_i k2 o2 hok
+        rcases List.mem_cons.1 h with h1 | h1
+        · cases h1; exact Or.inr ⟨o, _, List.mem_cons_self .., hok⟩
+        · rcases ih _ h1 with h2 | ⟨o3, pr, h2, h3⟩
+          · exact Or.inl (List.mem_cons_of_mem _ h2)
+          · exact Or.inr ⟨o3, pr, List.mem_cons_of_mem _ h2, h3⟩
+
+/-- what a matched (kept) slot is: the live object stored under the same key, updated in place from the object of
+    `other` that carries this key -/
+def KeepOrigin (litems oitems : Items) (k : Key) (n : Node) : Prop :=
+  ∃ l o bk, (bk, o) ∈ oitems ∧ o.hdr.key = k ∧ AList.get k litems = some l ∧
+    ((o.hdr.kind = Kind.referable ∧ l.hdr.cls = o.hdr.cls ∧ n = (updateFrom l o true).live) ∨
+     (o.hdr.kind ≠ Kind.referable ∧ n = copyItem l o))
+
+theorem matchLoop_slots (lsh : SetHdr) (litems : Items) : ∀ (oitems : Items),
+    (∀ k n, Slot.keep k n ∈ (matchLoop lsh litems oitems).slots → KeepOrigin litems oitems k n) ∧
+    (∀ o, Slot.add o ∈ (matchLoop lsh litems oitems).slots → ∃ bk, (bk, o) ∈ oitems) := by
+  intro oitems
+  induction oitems with
+  | nil => simp [matchLoop]
+  | cons hd rest ih =>
+    obtain ⟨bk, o⟩ := hd
+    have lift : ∀ k n, KeepOrigin litems rest k n → KeepOrigin litems ((bk, o) :: rest) k n := by
+      intro k n ⟨l, o', bk', h1, h2⟩
+      exact ⟨l, o', bk', List.mem_cons_of_mem _ h1, h2⟩
+    have here : ∀ l, AList.get o.hdr.key litems = some l →
+        ((o.hdr.kind = Kind.referable ∧ l.hdr.cls = o.hdr.cls ∧ (updateFrom l o true).live = (updateFrom l o true).live) ∨ True) → True := fun _ _ _ => trivial
+    simp only [matchLoop]
+    have hc := matchStep_cases lsh litems o (fun l => updateFrom l o true) (matchLoop lsh litems rest)
+    generalize matchStep lsh litems o (fun l => updateFrom l o true) (matchLoop lsh litems rest) = res at hc
+    obtain ⟨ihk, iha⟩ := ih
+    have liftA : ∀ o', (∃ bk', (bk', o') ∈ rest) → ∃ bk', (bk', o') ∈ (bk, o) :: rest := by
+      intro o' ⟨bk', h⟩; exact ⟨bk', List.mem_cons_of_mem _ h⟩
+    cases hc with
+    | typeErr => simp
+    | unmatched =>
+      simp only [addSlot]
+      refine ⟨fun k n h => ?_, fun o' h => ?_⟩
+      · rcases List.mem_cons.1 h with h1 | h1
+        · cases h1
+        · exact lift k n (ihk k n h1)
+      · rcases List.mem_cons.1 h with h1 | h1
+        · cases h1; exact ⟨bk, List.mem_cons_self ..⟩
+        · exact liftA o' (iha o' h1)
+    | retyped l =>
+      simp only [addSlot]
+      refine ⟨fun k n h => ?_, fun o' h => ?_⟩
+      · rcases List.mem_cons.1 h with h1 | h1
+        · cases h1
+        · exact lift k n (ihk k n h1)
+      · rcases List.mem_cons.1 h with h1 | h1
+        · cases h1; exact ⟨bk, List.mem_cons_self ..⟩
+        · exact liftA o' (iha o' h1)
+    | updated l hk ha hg hcl he =>
+      refine ⟨fun k n h => ?_, fun o' h => ?_⟩
+      · rcases List.mem_cons.1 h with h1 | h1
+        · cases h1; exact ⟨l, o, bk, List.mem_cons_self .., rfl, hg, Or.inl ⟨hk, hcl, rfl⟩⟩
+        · exact lift k n (ihk k n h1)
+      · rcases List.mem_cons.1 h with h1 | h1
+        · cases h1
+        · exact liftA o' (iha o' h1)
+    | swallowed l hk ha hg hcl he =>
+      refine ⟨fun k n h => ?_, fun o' h => ?_⟩
+      · rcases List.mem_cons.1 h with h1 | h1
+        · cases h1; exact ⟨l, o, bk, List.mem_cons_self .., rfl, hg, Or.inl ⟨hk, hcl, rfl⟩⟩
+        · rcases List.mem_cons.1 h1 with h2 | h2
+          · cases h2
+          · exact lift k n (ihk k n h2)
+      · rcases List.mem_cons.1 h with h1 | h1
+        · cases h1
+        · rcases List.mem_cons.1 h1 with h2 | h2
+          · cases h2; exact ⟨bk, List.mem_cons_self ..⟩
+          · exact liftA o' (iha o' h2)
+    | failed l e hk ha hg hcl he hne =>
+      refine ⟨fun k n h => ?_, fun o' h => ?_⟩
+      · rcases List.mem_cons.1 h with h1 | h1
+        · cases h1; exact ⟨l, o, bk, List.mem_cons_self .., rfl, hg, Or.inl ⟨hk, hcl, rfl⟩⟩
+        · cases h1
+      · rcases List.mem_cons.1 h with h1 | h1
+        · cases h1
+        · cases h1
+    | copied l h1' hk ha hg =>
+      refine ⟨fun k n h => ?_, fun o' h => ?_⟩
+      · rcases List.mem_cons.1 h with h1 | h1
+        · cases h1; exact ⟨l, o, bk, List.mem_cons_self .., rfl, hg, Or.inr ⟨hk, rfl⟩⟩
+        · exact lift k n (ihk k n h1)
+      · rcases List.mem_cons.1 h with h1 | h1
+        · cases h1
+        · exact liftA o' (iha o' h1)
+
+/-- `self.update_nss_from(other)` for one NamespaceSet (what `updateSets` runs per set) -/
+def updateNss (puid : Uid) (lsh osh : SetHdr) (sib : List Key) (litems oitems : Items) : SetRes :=
+  finishSet puid lsh osh sib litems oitems (matchLoop lsh litems oitems)
+
+theorem adopt_ok {puid : Uid} {lsh osh : SetHdr} {present : List Key} {o n : Node} {k : Key}
+    (h : adopt puid lsh osh present o = .ok (k, n)) :
+    n.hdr.uid = o.hdr.uid ∧ n.hdr.parent = some puid ∧ n.hdr.key = k ∧ k ≠ Key.none ∧ k ∉ present ∧
+    n.hdr.cls = o.hdr.cls ∧ n.hdr.plain = o.hdr.plain ∧ n.sets = o.sets := by
+  unfold adopt at h
+  simp only [] at h
+  repeat' split at h
+  all_goals (try cases h)
+  all_goals (cases o; simp_all [detach, Node.setHdr, Node.hdr, Node.sets])
+
+theorem members_updateNss (puid : Uid) (lsh osh : SetHdr) (sib : List Key) (litems oitems : Items)
+    (he : (updateNss puid lsh osh sib litems oitems).err = none) :
+    ∀ k n, (k, n) ∈ (updateNss puid lsh osh sib litems oitems).items →
+      (k, n) ∈ litems ∨ KeepOrigin litems oitems k n ∨
+      ∃ o bk present, (bk, o) ∈ oitems ∧ adopt puid lsh osh present o = .ok (k, n) := by
+  intro k n h
+  have hs := matchLoop_slots lsh litems oitems
+  unfold updateNss finishSet at h he
+  split at h
+  · rename_i e hm; simp [hm] at he
+  · simp only [List.mem_append, List.mem_filter] at h
+    rcases h with ⟨h1, _⟩ | h1
+    · rcases mem_applyKeeps _ _ h1 with h2 | h2
+      · exact Or.inl h2
+      · exact Or.inr (Or.inl (hs.1 k n h2))
+    · rcases mem_resolve _ _ _ _ _ _ _ h1 with h2 | ⟨o, pr, h2, h3⟩
+      · exact Or.inr (Or.inl (hs.1 k n h2))
+      · obtain ⟨bk, hb⟩ := hs.2 o h2
+        exact Or.inr (Or.inr ⟨o, bk, pr, hb, h3⟩)
+
 end Basyx.Update
